@@ -519,3 +519,48 @@ func checkLoaderFilter(w *World, c *Check, rule string) {
 		}
 	}
 }
+
+// checkAssertionsTested (stated belief "cannot fail"): a comma-ok type assertion whose ok result is thrown away while
+// its value is used asserts that the dynamic type is known — by a surrounding type switch, a registry — without
+// checking it. Where the belief is wrong (a generic view helper instantiated at the neighbouring type in one of
+// thirty copy-pasted cases) the value is silently the zero value: a typed view of nothing, with no error.
+func checkAssertionsTested(w *World, c *Check, rule string, fns []*ssa.Function) {
+	n := 0
+	for _, f := range fns {
+		for _, g := range append([]*ssa.Function{f}, allAnon(f)...) {
+			k := 0
+			for _, b := range g.Blocks {
+				for _, in := range b.Instrs {
+					ta, ok := in.(*ssa.TypeAssert)
+					if !ok || !ta.CommaOk || ta.Referrers() == nil {
+						continue
+					}
+					valUsed, okUsed := false, false
+					for _, r := range *ta.Referrers() {
+						ex, isEx := r.(*ssa.Extract)
+						if !isEx || ex.Referrers() == nil || len(*ex.Referrers()) == 0 {
+							continue
+						}
+						if ex.Index == 0 {
+							valUsed = true
+						} else {
+							okUsed = true
+						}
+					}
+					if !valUsed && !okUsed {
+						continue
+					}
+					n++
+					k++
+					key := fmt.Sprintf("%s:assert#%d", funcName(g), k)
+					if valUsed && !okUsed {
+						c.bad(rule, key, w.InstrPos(ta), fmt.Sprintf("%s uses the value of %s.(%s) without looking at whether the assertion held: where it does not, the code goes on with the zero value — a view of an empty value instead of the one it was given — and reports no error", funcName(g), shortVal(ta.X), types.TypeString(ta.AssertedType, func(p *types.Package) string { return "" })))
+					} else {
+						c.ok(rule, key, w.InstrPos(ta), "the outcome of the assertion is tested")
+					}
+				}
+			}
+		}
+	}
+	c.stat(rule+"_assertions", n)
+}
